@@ -355,4 +355,27 @@ def fromHex (s : List Nat) : Option Nat :=
         else []
       parseHexf64 (pre ++ fromHexBody hasDot start 0 value ++ tail)
 
+/-! ## digit-generation facts used by the round-trip theorem -/
+
+/-- digits past the decimal point exist (what `is_integer = false` means for the shortest digits) -/
+def FracDigits (bits : Nat) : Prop :=
+  (shortest bits).2 + 1 ≤ 0 ∨ ((shortest bits).2 + 1).toNat < (shortest bits).1.length
+
+/-- digits printed by `toFixedL bits prec` (integer and fraction part together) -/
+def fixedDigits (bits prec : Nat) : List Nat :=
+  List.replicate (prec + 1 - (natDigits (fixedInt bits prec)).length) 0 ++ natDigits (fixedInt bits prec)
+
+/-- What the round trip needs from digit generation (`PV.Dec`), per double: the shortest digits
+    denote a decimal that rounds back to the double; an `is_integer` value in the fixed range is
+    recovered from its one-decimal rendering; a non-`is_integer` value has digits after the point.
+    Evaluated on every sampled double by the check (driver op `decfacts`), not proved in general. -/
+def DecFacts (bits : Nat) : Prop :=
+  ofSci (isNeg bits) (shortest bits).1 (shortest bits).2 = bits ∧
+  (((shortest bits).2 < 16 ∧ (shortest bits).2 > -5) → isInteger bits = true →
+    ofDecimal (isNeg bits) (fixedDigits bits 1) (-1) = bits) ∧
+  (isInteger bits = false → FracDigits bits)
+
+instance (bits : Nat) : Decidable (FracDigits bits) := by unfold FracDigits; infer_instance
+instance (bits : Nat) : Decidable (DecFacts bits) := by unfold DecFacts; infer_instance
+
 end PV.C17
